@@ -26,12 +26,23 @@ func (g *Gen) name(s string) string {
 	return s + strconv.Itoa(g.n)
 }
 
+// intn draws a uniform choice in [0,n). rapid's integer generators favour
+// small values (which would turn every "10%" branch into a 30% branch), so the
+// drawn word is mixed before it is reduced; 0 still maps to 0, so shrinking
+// moves towards the first alternative.
 func (g *Gen) intn(label string, n int) int {
-	return rapid.IntRange(0, n-1).Draw(g.T, g.name(label))
+	x := rapid.Uint64().Draw(g.T, g.name(label))
+	x ^= x >> 33
+	x *= 0xff51afd7ed558ccd
+	x ^= x >> 33
+	x *= 0xc4ceb9fe1a85ec53
+	x ^= x >> 33
+	return int(x % uint64(n))
 }
 
+// chance is true with probability pct/100 (false for the shrunk draw 0).
 func (g *Gen) chance(label string, pct int) bool {
-	return rapid.IntRange(0, 99).Draw(g.T, g.name(label)) < pct
+	return 99-g.intn(label, 100) < pct
 }
 
 func pick[T any](g *Gen, label string, xs []T) T {
@@ -101,9 +112,12 @@ func (g *Gen) GenData(maxRows int) Data {
 		}
 	}
 	// working set: a few keys per table, over several tables
-	nt := rapid.IntRange(1, min(len(tables), 5)).Draw(t, "work_tables")
-	if len(tables) > 1 && nt == 1 && rapid.IntRange(0, 9).Draw(t, "force_multi") != 0 {
+	nt := 1 + g.intn("work_tables", min(len(tables), 5))
+	if len(tables) > 1 && nt == 1 && g.chance("force_multi", 90) {
 		nt = 2
+	}
+	if len(tables) > 2 && nt == 2 && g.chance("force_three", 50) {
+		nt = 3
 	}
 	perm := rapid.Permutation(tables).Draw(t, "work_perm")
 	for _, idx := range perm[:nt] {
@@ -115,8 +129,8 @@ func (g *Gen) GenData(maxRows int) Data {
 		}
 	}
 	var d Data
-	nr := rapid.IntRange(0, maxRows).Draw(t, "rows")
-	if nr < 8 && maxRows >= 8 && rapid.IntRange(0, 3).Draw(t, "more_rows") != 0 {
+	nr := g.intn("rows", maxRows+1)
+	if nr < 8 && maxRows >= 8 && g.chance("more_rows", 75) {
 		nr += 8
 	}
 	narrow := rapid.IntRange(0, 2).Draw(t, "narrow") == 0 // few distinct values: many duplicates and shared groups
@@ -127,7 +141,7 @@ func (g *Gen) GenData(maxRows int) Data {
 		return n
 	}
 	for i := 0; i < nr; i++ {
-		r := Row{K: keyOf(g.Work[rapid.IntRange(0, len(g.Work)-1).Draw(t, "rk")]), ID: int64(i + 1)}
+		r := Row{K: keyOf(g.Work[g.intn("rk", len(g.Work))]), ID: int64(i + 1)}
 		if rapid.IntRange(0, 5).Draw(t, "a_null") != 0 {
 			v := aVals[rapid.IntRange(0, span(len(aVals))-1).Draw(t, "a")]
 			r.A = &v
@@ -223,7 +237,7 @@ func (g *Gen) Cond(depth int, q string) string {
 			return "(" + g.Cond(depth-1, q) + ")"
 		}
 	}
-	if g.chance("cond_key", 40) {
+	if g.chance("cond_key", 35) {
 		return g.KeyAtom(q + "k")
 	}
 	return g.PlainAtom(q)
@@ -233,7 +247,7 @@ func (g *Gen) Cond(depth int, q string) string {
 func (g *Gen) KeyAtom(col string) string {
 	switch g.intn("katom", 10) {
 	case 0, 1, 2, 3:
-		op := pick(g, "kop", []string{"=", "=", "<>", "<", "<=", ">", ">=", "<", ">="})
+		op := pick(g, "kop", []string{"=", "<>", "<", "<=", ">", ">=", "<", ">=", "<>"})
 		if g.chance("k_flip", 20) {
 			return g.KeyLiteral() + " " + op + " " + col
 		}
@@ -461,7 +475,7 @@ func (g *Gen) SelectPlain(noOrderLimit bool, forceCols []string) string {
 		}
 	}
 	sb.WriteString(" FROM " + from)
-	sb.WriteString(g.Where(q, 40))
+	sb.WriteString(g.Where(q, 50))
 	if noOrderLimit {
 		return sb.String()
 	}
@@ -475,7 +489,7 @@ func (g *Gen) SelectPlain(noOrderLimit bool, forceCols []string) string {
 			extra = append(extra, q+c.name)
 		}
 	}
-	sb.WriteString(g.orderBy(fields, extra, 55, star, q))
+	sb.WriteString(g.orderBy(fields, extra, 70, star, q))
 	sb.WriteString(g.limit(40))
 	return sb.String()
 }
@@ -492,7 +506,7 @@ func (g *Gen) SelectAgg() string {
 		}
 		fs = append(fs, f)
 	}
-	s := "SELECT " + strings.Join(fs, ", ") + " FROM " + from + g.Where(q, 45)
+	s := "SELECT " + strings.Join(fs, ", ") + " FROM " + from + g.Where(q, 55)
 	if g.chance("agg_limit", 10) {
 		s += g.limit(100)
 	}
@@ -557,7 +571,7 @@ func (g *Gen) SelectGroup(noOrderLimit bool) string {
 		}
 		gb = append(gb, item)
 	}
-	s := "SELECT " + strings.Join(fs, ", ") + " FROM " + from + g.Where(q, 50) + " GROUP BY " + strings.Join(gb, ", ")
+	s := "SELECT " + strings.Join(fs, ", ") + " FROM " + from + g.Where(q, 60) + " GROUP BY " + strings.Join(gb, ", ")
 	if noOrderLimit {
 		return s
 	}
@@ -710,9 +724,9 @@ func (g *Gen) SelectJoin() string {
 // Select draws one statement of the supported SELECT subset.
 func (g *Gen) Select() string {
 	switch k := g.intn("select_kind", 20); {
-	case k < 5:
+	case k < 4:
 		return g.SelectPlain(false, nil)
-	case k < 8:
+	case k < 7:
 		return g.SelectAgg()
 	case k < 14:
 		return g.SelectGroup(false)
